@@ -89,6 +89,7 @@ def run(run: Run, pkg: Package) -> None:
         check_ambient(run, pkg, it)
         check_saves(run, pkg, ef, fi)
         check_memo(run, pkg, it)
+        check_memoised(run, pkg, fi)
     run.minimum("R-EFFECT", 300)
     run.minimum("R-SAVE", 55)
     run.extra["functions_total"] = n_funcs
@@ -269,6 +270,54 @@ PRINT_READERS = {"numpy.array2string", "numpy.array_str", "numpy.array_repr"}
 NONDET = ("numpy.random.", "random.", "uuid.", "secrets.")
 CLOCKS = {"time.time", "time.perf_counter", "time.monotonic", "time.process_time", "datetime.datetime.now", "datetime.datetime.today",
           "os.getpid", "os.urandom"}
+
+
+MEMO_DECORATORS = ("lru_cache", "cache", "cached_property", "memoize", "memoized")
+FILE_READERS = ("builtins.open", "numpy.loadtxt", "numpy.genfromtxt", "numpy.load", "numpy.fromfile", "pandas.read_csv", "pandas.read_table", "gsd.hoomd.open", "mdtraj.load")
+
+
+def memo_decorator(fi) -> Optional[str]:
+    import ast as _ast
+    for d in fi.node.decorator_list:
+        txt = _ast.unparse(d.func if isinstance(d, _ast.Call) else d)
+        if txt.rsplit(".", 1)[-1] in MEMO_DECORATORS:
+            return txt
+    return None
+
+
+def reads_files(pkg: Package, fi, depth=0, seen=None) -> Optional[str]:
+    """a file-reading call reachable from the function (through analysed callees)"""
+    seen = seen if seen is not None else set()
+    if fi.qual in seen or depth > 4:
+        return None
+    seen.add(fi.qual)
+    it = interp(pkg, fi.qual)
+    for ev in it.events:
+        if ev.kind in ("call", "with"):
+            c = ev.data["call"] if ev.kind == "call" else ev.data["value"]
+            if c[0] == "call" and isinstance(c[1], str):
+                if c[1] in FILE_READERS:
+                    return c[1]
+                if c[1] in pkg.functions:
+                    r = reads_files(pkg, pkg.functions[c[1]], depth + 1, seen)
+                    if r:
+                        return r
+    return None
+
+
+def check_memoised(run: Run, pkg: Package, fi) -> None:
+    """A result cache keyed on the arguments makes a call's outcome depend on what was computed before whenever the arguments do
+    not determine the result: a file name does not determine the file's content, and a cached mutable result is shared with
+    every earlier caller."""
+    dec = memo_decorator(fi)
+    if dec is None:
+        return
+    fq = short(fi.qual)
+    rd = reads_files(pkg, fi)
+    run.ob("R-AMBIENT", fq, f"memoised: @{dec}", False if rd else None, "no result cache on a routine whose result is not a function of its arguments alone",
+           f"@{dec} on a routine that reads files through {rd}" if rd else f"@{dec}: cached results are shared between calls",
+           witness=(f"{fi.name}(path) is called, the file at `path` is rewritten (or the returned arrays are edited), {fi.name}(path) is called again: the second call returns the first "
+                    f"call's objects - stale frame count, timesteps, coordinates") if rd else None, loc=fi.loc(), sound=True)
 
 
 def check_ambient(run: Run, pkg: Package, it: Interp) -> None:
